@@ -554,18 +554,19 @@ let () =
                  chk "clone_fresh" (not (List.exists (fun t -> List.exists (fun u -> Z.equal (z_of_n t) (z_of_n u)) src_t) cl_t));
                  chk "mon_c01" (c01_mon !e post.st); chk "mon_c02" (c02_mon !e post.st); chk "mon_c04" (c04_nodup_mon post.st);
                  (match post.graph with Some g -> chk "mon_c07" (ri_check g) | None -> ());
-                 (* B level: the clone is built by inserting the copies at the head, LRU first, into a fresh seal cycle *)
-                 (match post.graph with
-                  | Some pg ->
-                    let sealn = { nprev = pg.g_seal; nnext = pg.g_seal; nsize = N0; npay = PSeal } in
-                    let g0 = { gh = (fun a -> if a = pg.g_seal then Some sealn else None); gseal = pg.g_seal; glist = [] } in
-                    let built = List.fold_left (fun g (en : entry) -> g >>= fun g -> addr_of post en.ek.ktok >>= fun a -> b_insert_new g a en.es dummy_pay) (Some g0) s'.ents in
-                    (match built with
+                 (* B level: the extracted pointer-level clone (B/CloneB.v, proved to refine do_clone and to leave the source
+                    intact) runs in the heap of the source, with the seal and bucket addresses observed for the copy *)
+                 (match post.graph, gstate_of pre with
+                  | Some pg, Some gsrc ->
+                    let addrs = List.filter_map (fun (en : entry) -> addr_of post en.ek.ktok) post.st.ents in
+                    let b0 = { bg = gsrc; bcur = pre.st.cur; bmax = pre.st.maxs; btb = pre.st.tb } in
+                    (match bB_clone !e b0 pg.g_seal addrs ren with
                      | None -> chk "bsim" false
-                     | Some g' -> let want = links_string (b_links g') and got = observed_links post in
+                     | Some (bc, _) -> let want = links_string (b_links bc.bg) and got = observed_links post in
                        chk "bsim" (want = got);
+                       chk "brefine" (absB bc = s');
                        if want <> got then Buffer.add_string detail (Printf.sprintf "  layer B links of the clone:\n    expected %s\n    observed %s\n" want got))
-                  | None -> ());
+                  | _ -> ());
                  if !failed <> [] then
                    Buffer.add_string detail (Printf.sprintf "  model: clone|%s|%s|%s\n" (ents_string s') (s_of_n s'.cur) (s_of_n s'.maxs)))
             | XDrop ->
